@@ -263,8 +263,8 @@ func TestTableKeys(t *testing.T) {
 			}
 		}
 	}
-	pk.Extra("table:types", len(typeInsts))
-	pk.Extra("table:type-x-member", nm)
+	pk.Extra("keys-table:types", len(typeInsts))
+	pk.Extra("keys-table:type-x-member", nm)
 	pk.Exhaustive("type-x-member")
 	col.Done(t)
 }
@@ -488,10 +488,10 @@ func TestTableMembers(t *testing.T) {
 	if err != nil {
 		t.Fatalf("VERIF-FAIL sub=member sig=%q\n%v", "table", err)
 	}
-	pk.Extra("table:types", nt)
-	pk.Extra("table:type-x-member", nm)
-	pk.Extra("table:max-arg-tuples-per-receiver", maxArgs)
-	pk.Extra("table:cases", len(cases))
+	pk.Extra("member-table:types", nt)
+	pk.Extra("member-table:type-x-member", nm)
+	pk.Extra("member-table:max-arg-tuples-per-receiver", maxArgs)
+	pk.Extra("member-table:cases", len(cases))
 	t.Logf("|types|=%d |type x member|=%d max arg tuples=%d |cases|=%d (x2 backends)", nt, nm, maxArgs, len(cases))
 	runCases(t, cases)
 	pk.Exhaustive("type-x-member")
@@ -666,6 +666,12 @@ func indexCases() []Case {
 						}
 						kt := typeOf(v)
 						p.stmt("let r = recv[k] as %s;", kt.Src())
+						if !scalarKind(kt) {
+							// the `any` result needs a cast before any use; casts of non-scalar
+							// values are another property's subject: no crash is all that is asserted
+							p.use("r", kt, nil, 1, "")
+							return false, false, "cast-of-non-scalar-any"
+						}
 						p.use("r", kt, v, 1, "")
 						p.use("recv", ty, recv, 1, "")
 						return true, false, ""
@@ -699,9 +705,9 @@ func TestTableIndex(t *testing.T) {
 		t.Fatalf("VERIF-FAIL sub=index sig=%q\n%v", "table", err)
 	}
 	ix := indexCases()
-	pk.Extra("table:index-taking-members", nm)
-	pk.Extra("table:index-member-cases", len(cases))
-	pk.Extra("table:index-form-cases", len(ix))
+	pk.Extra("index-table:index-taking-members", nm)
+	pk.Extra("index-table:member-cases", len(cases))
+	pk.Extra("index-table:indexing-form-cases", len(ix))
 	t.Logf("index-taking (type x member)=%d cases=%d, indexing-form cases=%d (x2 backends)", nm, len(cases), len(ix))
 	runCases(t, append(cases, ix...))
 	pk.Exhaustive("type-x-member")
